@@ -535,6 +535,7 @@ struct ChildOutcome {
     std::string msg;
     int signal_no = 0;
     bool deadlock = false;  // hung, and all threads asleep without consuming CPU: not slowness
+    std::string where;      // deadlock: backtraces of the sleeping threads (if gdb could attach)
 };
 
 // CPU ticks consumed by all threads of a process and the number of threads that are runnable or in uninterruptible sleep
@@ -648,11 +649,25 @@ inline ChildOutcome run_child(const std::function<int()>& fn, double timeout_s, 
                 busy += b.busy;
             }
             out.deadlock = a.threads > 0 && b.threads > 0 && busy == 0 && b.ticks <= a.ticks + 1;
+            std::string where;
+            if (out.deadlock) {
+                // what every thread is waiting in (for the report; gdb is optional)
+                std::string cmd = "timeout 30 gdb -p " + std::to_string(static_cast<int>(pid)) + " -batch -ex 'thread apply all bt 14' 2>/dev/null | grep -E '^(Thread|#)' | cut -c1-160 | head -80";
+                if (FILE* g = popen(cmd.c_str(), "r")) {
+                    char buf[512];
+                    while (std::fgets(buf, sizeof(buf), g)) where += buf;
+                    pclose(g);
+                }
+                // gdb stops the process while it looks: make sure that what it saw was still the sleeping process
+                ProcSample c = sample_proc(pid);
+                if (c.ticks > b.ticks + 1) out.deadlock = false;
+            }
             kill(pid, SIGKILL);
             waitpid(pid, &status, 0);
             out.kind = ChildOutcome::hung;
             out.sig = out.deadlock ? "deadlock" : "hang";
             out.msg = "no progress for " + std::to_string(timeout_s) + " s" + (out.deadlock ? "; all " + std::to_string(b.threads) + " threads asleep and no CPU time consumed during 3 more seconds (deadlock)" : "");
+            out.where = where;
             return out;
         }
         usleep(2000);
@@ -930,7 +945,7 @@ inline int run_property(const Property& prop, const std::string& rule) {
                     sh->heartbeat++;
                     bool wd = (idx < 2) || (idx % sample_every == 0);
                     cs().want_desc = wd;
-                    if (wd) sh->desc[0] = 0;
+                    sh->desc[0] = 0;  // (never report an earlier case's description with this case)
                     Src src{case_seed(idx)};
                     if (run_one_in_process(prop, src) != 0) return 1;
                     sh->cases_done++;
@@ -969,7 +984,8 @@ inline int run_property(const Property& prop, const std::string& rule) {
         next = idx + 1;
         if (o.kind == ChildOutcome::hung && o.deadlock) {
             // a deadlock that happened is a fact about the code, whether or not the schedule can be reproduced: report it
-            std::string path = write_replay(opts().viol_dir + "/" + opts().prop, "deadlock", o.msg, seq, const_cast<const char*>(sh->desc), read_tail(errpath, 3000));
+            std::string path = write_replay(opts().viol_dir + "/" + opts().prop, "deadlock", o.msg, seq, const_cast<const char*>(sh->desc), read_tail(errpath, 3000) + "\n" + o.where);
+            if (!o.where.empty()) std::fprintf(stderr, "deadlock at case %llu, threads were waiting in:\n%s\n", static_cast<unsigned long long>(idx), o.where.c_str());
             res.failures.push_back(FailureRec{"deadlock", o.msg + " | " + std::string{const_cast<const char*>(sh->desc)}.substr(0, 600), path});
             res.notes.push_back("shard stopped after a deadlock at case " + std::to_string(idx));
             res.inconclusive = true;
